@@ -753,3 +753,208 @@ func c01WorkerForward(c *Ctx, r *Report, rule string) {
 	}
 	r.Floor(rule, 1, "the append of a match in asyncWorker")
 }
+
+// ---------------------------------------------------------------- C19-d a binding that is not a number is counted, not encoded in the value
+
+// c19BindingErrors (C19-d/binding-errors): the formula context turns match
+// data into float64. A field that does not parse must leave a trace that the
+// runner tests *besides* the computed value: every value a float64 can take
+// (0, NaN, Inf) is also a legitimate result of a formula over numeric
+// bindings, and most operators (comparisons, && ||, ^0, bit operators) do not
+// propagate a sentinel. Two obligations: (1) in every GetMatch/GetKey of a
+// float64-valued context wrapper, each path after strconv.ParseFloat either
+// knows err == nil or stores to a field of the receiver; (2) the stage that
+// runs the formula decides between the error marker and the formatted value
+// by reading that field of the very wrapper it evaluated with.
+func c19BindingErrors(c *Ctx, r *Report, rule string) {
+	const pkg = "rare/pkg/expressions/stdlib"
+	counterOf := map[*types.Named]*types.Var{}
+	n := 0
+	for _, fi := range c.AllFuncDecls(pkg) {
+		fd := fi.Decl
+		if fd.Recv == nil || len(fd.Recv.List) != 1 || len(fd.Recv.List[0].Names) != 1 || (fd.Name.Name != "GetMatch" && fd.Name.Name != "GetKey") {
+			continue
+		}
+		sig, _ := fi.Obj.Type().(*types.Signature)
+		if sig == nil || sig.Results().Len() != 1 {
+			continue
+		}
+		if b, ok := sig.Results().At(0).Type().Underlying().(*types.Basic); !ok || b.Kind() != types.Float64 {
+			continue
+		}
+		info := fi.Pkg.TypesInfo
+		recv := info.Defs[fd.Recv.List[0].Names[0]]
+		rt := recv.Type()
+		if p, ok := rt.(*types.Pointer); ok {
+			rt = p.Elem()
+		}
+		named := namedOf(rt)
+		fg := NewFGraph(fd.Body, info)
+		for _, nd := range fg.Nodes {
+			as, ok := nd.N.(*ast.AssignStmt)
+			if !ok || len(as.Rhs) != 1 || len(as.Lhs) != 2 {
+				continue
+			}
+			ce, ok := ast.Unparen(as.Rhs[0]).(*ast.CallExpr)
+			if !ok || calleeName(info, ce) != "strconv.ParseFloat" {
+				continue
+			}
+			errObj := identObj(info, as.Lhs[1])
+			n++
+			untraced := false
+			var field *types.Var
+			enumPaths(fg, nd.ID, func(id int) bool { return id == fg.Exit }, func(nodes []int, edges []FEdge) {
+				errNil := false
+				for _, e := range edges {
+					if e.Cond == nil || e.Tag != nil {
+						continue
+					}
+					for _, at := range atomise(Fact{e.Cond, nil, e.Truth}) {
+						if be, ok := at.Cond.(*ast.BinaryExpr); ok && errObj != nil {
+							isErr := identObj(info, be.X) == errObj || identObj(info, be.Y) == errObj
+							if isErr && ((be.Op == token.EQL && at.Truth) || (be.Op == token.NEQ && !at.Truth)) {
+								errNil = true
+							}
+						}
+					}
+				}
+				if errNil {
+					return
+				}
+				wrote := false
+				for _, id := range nodes {
+					x := fg.Nodes[id].N
+					if x == nil {
+						continue
+					}
+					var lhs []ast.Expr
+					switch t := x.(type) {
+					case *ast.IncDecStmt:
+						lhs = []ast.Expr{t.X}
+					case *ast.AssignStmt:
+						lhs = t.Lhs
+					}
+					for _, l := range lhs {
+						if sel, ok := ast.Unparen(l).(*ast.SelectorExpr); ok && identObj(info, sel.X) == recv {
+							if fv := fieldVar(info, sel); fv != nil {
+								wrote = true
+								field = fv
+							}
+						}
+					}
+				}
+				if !wrote {
+					untraced = true
+				}
+			})
+			if !untraced && field != nil && named != nil {
+				counterOf[named] = field
+			}
+			r.Check(!untraced, rule, fi.Name, exprStr(ce), c.Pos(as.Pos()), "path: a failed parse is recorded in the wrapper before the method returns",
+				"a binding that does not parse as a number leaves no trace in the context wrapper on some path (the failure is at best encoded in the returned float64): every float64 - 0, NaN, Inf - is also the legitimate value of a formula over numeric bindings, and comparisons, && ||, ^0 and the bit operators do not propagate a sentinel, so a non-numeric field silently yields a number (or a numeric result is reported as an error)")
+		}
+	}
+	r.Floor(rule, 2, "keyBuilderContextWrapper.GetMatch and GetKey")
+	// (2) the runner
+	fi := c.stageFactoryByKey("!")
+	if fi == nil {
+		fi = c.MustFunc(r, rule, pkg, "kfMath")
+	}
+	if fi == nil {
+		return
+	}
+	info := fi.Pkg.TypesInfo
+	found := false
+	for _, fl := range funcLitsIn(fi.Decl.Body) {
+		if !isStageLit(info, fl) {
+			continue
+		}
+		fg := NewFGraph(fl.Body, info)
+		for _, nd := range fg.Nodes {
+			if nd.N == nil {
+				continue
+			}
+			for _, ce := range callsIn(nd.N) {
+				se, ok := ce.Fun.(*ast.SelectorExpr)
+				if !ok || se.Sel.Name != "Eval" || len(ce.Args) != 1 {
+					continue
+				}
+				ctxObj := identObj(info, ce.Args[0])
+				if ctxObj == nil {
+					continue
+				}
+				pt, ok := ctxObj.Type().Underlying().(*types.Pointer)
+				if !ok {
+					continue
+				}
+				named := namedOf(pt.Elem())
+				if named == nil {
+					continue
+				}
+				found = true
+				field := counterOf[named]
+				if field == nil {
+					r.Bad(rule, fi.Name, exprStr(ce), c.Pos(ce.Pos()), "the formula is evaluated with a "+named.Obj().Name()+" whose lookups record no parse failure: the runner has nothing but the computed value to tell a bad field from a number")
+					continue
+				}
+				undecidedPath, wrongMarker := false, false
+				enumPaths(fg, nd.ID, func(id int) bool { return id == fg.Exit }, func(nodes []int, edges []FEdge) {
+					tested, errorsSeen := false, false
+					for _, e := range edges {
+						if e.Cond == nil {
+							continue
+						}
+						mentions := false
+						ast.Inspect(e.Cond, func(x ast.Node) bool {
+							if sel, ok := x.(*ast.SelectorExpr); ok && fieldVar(info, sel) == field && identObj(info, sel.X) == ctxObj {
+								mentions = true
+							}
+							return true
+						})
+						if !mentions {
+							continue
+						}
+						tested = true
+						for _, at := range atomise(Fact{e.Cond, nil, e.Truth}) {
+							if be, ok := at.Cond.(*ast.BinaryExpr); ok {
+								if k, isK := constInt(info, be.Y); isK && k == 0 {
+									if (be.Op == token.GTR && at.Truth) || (be.Op == token.NEQ && at.Truth) || (be.Op == token.EQL && !at.Truth) || (be.Op == token.LEQ && !at.Truth) {
+										errorsSeen = true
+									}
+								}
+							}
+						}
+					}
+					if !tested {
+						undecidedPath = true
+						return
+					}
+					if errorsSeen {
+						// the value returned on this path is one of the error markers
+						last := fg.Nodes[nodes[len(nodes)-2]]
+						_ = last
+						for i := len(nodes) - 1; i >= 0; i-- {
+							if rs, ok := fg.Nodes[nodes[i]].N.(*ast.ReturnStmt); ok {
+								okMarker := false
+								if len(rs.Results) == 1 {
+									if o := identObj(info, rs.Results[0]); o != nil && strings.HasPrefix(o.Name(), "Error") {
+										okMarker = true
+									}
+								}
+								if !okMarker {
+									wrongMarker = true
+								}
+								break
+							}
+						}
+					}
+				})
+				r.Check(!undecidedPath && !wrongMarker, rule, fi.Name, "after "+exprStr(ce), c.Pos(ce.Pos()), "path: every path from the evaluation to a return tests "+field.Name()+" of the wrapper it evaluated with, and the failing side returns an error marker",
+					"after evaluating the formula the stage returns on some path without consulting "+named.Obj().Name()+"."+field.Name()+" (or returns something other than an error marker when it is set): a non-numeric binding is then reported as a number")
+			}
+		}
+	}
+	if !found {
+		r.Undecided(rule, fi.Name, "Eval call", c.Pos(fi.Decl.Pos()), "the stage that evaluates the compiled formula with a context wrapper was not found")
+	}
+}
